@@ -3,7 +3,7 @@ C11: composition of the pieces — the two-sided exact formula against the speci
 symmetric null distribution, the untied CDF of the model as the distribution function of the
 enumeration, and the end-to-end statements for untied samples.
 
-(`C11Rank` is not imported: it and `C11Untied` both declare `C11.twoUPairs_nil_left` etc.)
+(`C11Rank` is not needed here; the few `twoUPairs` facts used are proved locally with a `_c` suffix.)
 -/
 import Model.Stats.UDist
 import Model.Stats.UStat
@@ -394,5 +394,93 @@ theorem two_sided_exact_untied (n m : Nat) (T : List Nat) (hT : Stats.UDist.hasT
     (nullDistOf_ne_nil n m pool hlen) (nullDistOf_symmetric n m pool hlen hdesc) u hu
 
 end UntiedDist
+
+/-! ### goal 4: sanity of the two-sided specification and the swap of the samples -/
+
+theorem ratMin_nonneg {x y : Rat} (hx : 0 ≤ x) (hy : 0 ≤ y) : 0 ≤ ratMin x y := by
+  unfold ratMin
+  split <;> assumption
+
+theorem ratMin_le_left (x y : Rat) : ratMin x y ≤ x := by
+  unfold ratMin
+  split
+  · exact le_refl _
+  · linarith
+
+theorem two_sided_in_unit_interval (dist : List Nat) (u : Nat) :
+    0 ≤ Spec.UExact.pTwoSided dist u ∧ Spec.UExact.pTwoSided dist u ≤ 1 := by
+  unfold pTwoSided
+  refine ⟨?_, ratMin_le_left _ _⟩
+  apply ratMin_nonneg (by norm_num)
+  apply mul_nonneg (by norm_num)
+  apply ratMin_nonneg
+  · unfold pLess
+    exact div_nonneg (Nat.cast_nonneg _) (Nat.cast_nonneg _)
+  · unfold pGreater
+    exact div_nonneg (Nat.cast_nonneg _) (Nat.cast_nonneg _)
+
+section Swap
+variable {α : Type} [LinearOrder α]
+
+theorem pairW_add_swap (a b : α) : pairW a b + pairW b a = 2 := by
+  unfold pairW
+  rcases lt_trichotomy a b with h | h | h
+  · have h1 : ¬ b < a := not_lt.2 (le_of_lt h)
+    have h2 : ¬ a = b := ne_of_lt h
+    simp [h, h1, h2]
+  · subst h
+    simp
+  · have h1 : ¬ a < b := not_lt.2 (le_of_lt h)
+    have h2 : ¬ b = a := ne_of_lt h
+    simp [h, h1, h2]
+
+theorem twoUPairs_cons_left_c (a : α) (xs ys : List α) :
+    twoUPairs (a :: xs) ys = (ys.map fun b => pairW a b).sum + twoUPairs xs ys := by
+  simp [twoUPairs]
+
+theorem twoUPairs_nil_right_c (xs : List α) : twoUPairs xs ([] : List α) = 0 := by
+  induction xs with
+  | nil => rfl
+  | cons a xs ih => rw [twoUPairs_cons_left_c, ih]; rfl
+
+theorem twoUPairs_cons_right (a : α) (xs ys : List α) :
+    twoUPairs xs (a :: ys) = (xs.map fun x => pairW x a).sum + twoUPairs xs ys := by
+  induction xs with
+  | nil => rfl
+  | cons x xs ih =>
+    rw [twoUPairs_cons_left_c, twoUPairs_cons_left_c, ih]
+    simp only [List.map_cons, List.sum_cons]
+    omega
+
+theorem pairW_row_swap (a : α) (ys : List α) :
+    (ys.map fun b => pairW a b).sum + (ys.map fun b => pairW b a).sum = 2 * ys.length := by
+  induction ys with
+  | nil => rfl
+  | cons b ys ih =>
+    simp only [List.map_cons, List.sum_cons, List.length_cons]
+    have := pairW_add_swap a b
+    omega
+
+/-- swapping the samples reflects the doubled statistic: `2·U₂ = 2·n1·n2 − 2·U₁` -/
+theorem twoUPairs_swap (x1 x2 : List α) :
+    twoUPairs x1 x2 + twoUPairs x2 x1 = 2 * x1.length * x2.length := by
+  induction x1 with
+  | nil =>
+    rw [twoUPairs_nil_right_c]
+    show twoUPairs ([] : List α) x2 + 0 = 2 * 0 * x2.length
+    rw [Nat.mul_zero, Nat.zero_mul]
+    rfl
+  | cons a x1 ih =>
+    rw [twoUPairs_cons_left_c, twoUPairs_cons_right, List.length_cons]
+    have := pairW_row_swap a x2
+    have e : 2 * (x1.length + 1) * x2.length = 2 * x1.length * x2.length + 2 * x2.length := by ring
+    omega
+
+theorem two_sided_in_unit_interval_and_swap_invariant (dist : List Nat) (u : Nat) (x1 x2 : List α) :
+    (0 ≤ Spec.UExact.pTwoSided dist u ∧ Spec.UExact.pTwoSided dist u ≤ 1)
+      ∧ Spec.UExact.twoUPairs x1 x2 + Spec.UExact.twoUPairs x2 x1 = 2 * x1.length * x2.length :=
+  ⟨two_sided_in_unit_interval dist u, twoUPairs_swap x1 x2⟩
+
+end Swap
 
 end C11
